@@ -2,6 +2,7 @@ SPECIFICATION Spec
 CONSTANTS
   Depth = 3
   EmitDepth = 3
+  MoreInits = TRUE
 INVARIANTS
   InvWellFormed
   InvFailNoChange
